@@ -54,6 +54,8 @@ NAMING = [
     ("naming:field-named-endianess", [_st("Config", ("endianess", U(1)), ("gain", I(7)))], {"Config": {"endianess": 1, "gain": -3}}),
     ("naming:field-named-like-its-struct", [_st("Speed", ("Speed", U(16)), ("valid", U(1)))], {"Speed": {"Speed": 513, "valid": 1}}),
     ("naming:field-named-like-a-local", [_st("Loc", ("j", U(8)), ("fcp_decoded", U(8)), ("rhs", U(8)), ("begin", U(8)), ("end", U(8)), ("data", U(8)))], {"Loc": {"j": 1, "fcp_decoded": 2, "rhs": 3, "begin": 4, "end": 5, "data": 6}}),
+    ("naming:type-named-like-an-accessor", [("enum", "GetMode", (("Off", 0), ("Fast", 2))), _st("ViewLimit", ("lo", U(4)), ("hi", U(4))), _st("Ctl", ("mode", ("ref", "GetMode")), ("limit", ("ref", "ViewLimit")), ("level", U(5)))], {"ViewLimit": {"lo": 1, "hi": 2}, "Ctl": {"mode": 2, "limit": {"lo": 3, "hi": 4}, "level": 17}}),
+    ("naming:type-named-like-an-accessor-declared-after", [("enum", "GetMode", (("Off", 0), ("Fast", 2))), ("struct", "Ctl", (("level", 2, U(5), None, None), ("mode", 0, ("ref", "GetMode"), None, None)))], {"Ctl": {"mode": 2, "level": 17}}),
     ("naming:field-named-like-another-fields-alias", [("struct", "Sel", (("ModeType", 1, U(16), None, None), ("Mode", 0, U(8), None, None)))], {"Sel": {"Mode": 1, "ModeType": 515}}),
     ("naming:field-named-like-another-fields-alias-2", [_st("Sel", ("Mode", U(8)), ("ModeType", U(16)))], {"Sel": {"Mode": 1, "ModeType": 515}}),
     ("naming:fields-equal-in-pascal-case", [_st("Wheel", ("speed", U(16)), ("Speed", I(16)))], {"Wheel": {"speed": 1000, "Speed": -2}}),
